@@ -1,7 +1,9 @@
 package main
 
 import (
+	"fmt"
 	"math/rand"
+	"strings"
 )
 
 func init() { props["C10"] = runC10 }
@@ -30,7 +32,28 @@ func runC10(r *Run, rng *rand.Rand, thorough bool) {
 				wargs = append(wargs, c.wireTag)
 			}
 			gw, _, _ := r.Do(c.sys+"/wire", true, "wire_roundtrip", wargs...)
-			r.Assert(gw == "ok "+eInts(parts), c.sys+"/wire-roundtrip", "proof-survives-wire-encoding", func() string { return c.sys + " -> " + gw[:min(len(gw), 80)] })
+			// A component that is exactly zero has an empty encoding, which every …FromBytes refuses (model: the wire
+			// round trip succeeds iff no component is zero; Go and model are compared on it by the op above). The provers
+			// draw such a value with negligible probability only (a mask of thousands of bits being 0); the model-made
+			// proofs with a coin forced to the low end of its range can contain one: that is outside what the property
+			// quantifies over (witnesses, parameters, sessions) and is not asserted.
+			zeroComponent := false
+			for _, v := range parts {
+				zeroComponent = zeroComponent || v.Sign() == 0
+			}
+			if zeroComponent && strings.HasPrefix(c.origin, "model-prover") {
+				r.Dist[c.sys+"/wire-zero-component-from-forced-coin"]++
+				continue
+			}
+			r.Assert(gw == "ok "+eInts(parts), c.sys+"/wire-roundtrip", "proof-survives-wire-encoding", func() string {
+				zero := []int{}
+				for k, v := range parts {
+					if v.Sign() == 0 {
+						zero = append(zero, k)
+					}
+				}
+				return fmt.Sprintf("%s (%s, witness %s, %s) zero components at %v -> %s", c.sys, c.origin, c.witness, c.extreme, zero, gw[:min(len(gw), 80)])
+			})
 		}
 	}
 	// dln wire form: builder secrets → UnmarshalDLNProof
